@@ -18,6 +18,12 @@ pub fn st_sb_all(s: &mut [fx::W]) {
 pub fn st_isb_all(s: &mut [fx::W]) {
     fx::stub_isb_all(s)
 }
+pub fn st_mc0_all(s: &mut [fx::W; 8]) {
+    fx::stub_mc0_all(s)
+}
+pub fn st_imc0_all(s: &mut [fx::W; 8]) {
+    fx::stub_imc0_all(s)
+}
 
 //@ harness name=hz_cipher_round prop=C17,C20 tier=quick bits=256 est=150 desc="D: hazmat::cipher_round(b, k) == MixColumns(ShiftRows(SubBytes(b))) XOR k (FIPS-197 oracle, generated S-box); all 2^128 blocks x 2^128 round keys; real fixsliced S-box circuit"
 verif_harness! {
@@ -75,12 +81,12 @@ fn blocks8(inp: &[u8], off: usize) -> ([[u8; 16]; 8], hz::Block8) {
     }
     (x, a)
 }
-//@ harness name=hz_cipher_round_par prop=C17,C20 tier=quick bits=2048 stub=1 est=200 desc="W: hazmat::cipher_round_par(blocks, keys): output i == MixColumns(ShiftRows(SubBytes(block i))) XOR key i for i = 0..7 (eight independent single rounds, respective keys); all 8 blocks and 8 keys symbolic; S-box uninterpreted on every lane, shared with the oracle"
+//@ harness name=hz_cipher_round_par prop=C17,C20 tier=quick bits=2048 stub=1 est=200 desc="W: hazmat::cipher_round_par(blocks, keys): output i == MixColumns(ShiftRows(SubBytes(block i))) XOR key i for i = 0..7 (eight independent single rounds, respective keys); all 8 blocks and 8 keys symbolic; S-box uninterpreted on every lane (shared with the oracle), mix_columns_0 replaced by its proved specification MixColumns per block; bitslice, shift_rows_1, sub_bytes_nots, key XOR real"
 verif_harness! {
     name: hz_cipher_round_par,
     bytes: 256,
     unwind: 70,
-    stubs: [(crate::soft::fixslice::sub_bytes, st_sb_all)],
+    stubs: [(crate::soft::fixslice::sub_bytes, st_sb_all), (crate::soft::fixslice::mix_columns_0, st_mc0_all)],
     prop: |inp| {
         let (x, mut a) = blocks8(inp, 0);
         let (k, kk) = blocks8(inp, 128);
@@ -88,19 +94,19 @@ verif_harness! {
         let mut ok = true;
         let mut i = 0;
         while i < 8 {
-            let e = ra::xor(&ra::mix_columns(&ra::shift_rows(&ra::sub_bytes_with(&x[i], &fx::uf_sb::call))), &k[i]);
+            let e = ra::xor(&fx::o_mc(&ra::shift_rows(&ra::sub_bytes_with(&x[i], &fx::o_sb))), &k[i]);
             ok &= a[i].0 == e;
             i += 1;
         }
         Some(ok)
     }
 }
-//@ harness name=hz_equiv_inv_cipher_round_par prop=C17,C20 tier=quick bits=2048 stub=1 est=200 desc="W: hazmat::equiv_inv_cipher_round_par(blocks, keys): output i == InvMixColumns(InvShiftRows(InvSubBytes(block i))) XOR key i for i = 0..7; all 8 blocks and keys; inverse S-box uninterpreted on every lane, shared with the oracle"
+//@ harness name=hz_equiv_inv_cipher_round_par prop=C17,C20 tier=quick bits=2048 stub=1 est=200 desc="W: hazmat::equiv_inv_cipher_round_par(blocks, keys): output i == InvMixColumns(InvShiftRows(InvSubBytes(block i))) XOR key i for i = 0..7; all 8 blocks and keys; inverse S-box uninterpreted on every lane (shared with the oracle), mix_columns_0 replaced by its proved specification MixColumns per block; bitslice, shift_rows_1, sub_bytes_nots, key XOR real"
 verif_harness! {
     name: hz_equiv_inv_cipher_round_par,
     bytes: 256,
     unwind: 70,
-    stubs: [(crate::soft::fixslice::inv_sub_bytes, st_isb_all)],
+    stubs: [(crate::soft::fixslice::inv_sub_bytes, st_isb_all), (crate::soft::fixslice::inv_mix_columns_0, st_imc0_all)],
     prop: |inp| {
         let (x, mut a) = blocks8(inp, 0);
         let (k, kk) = blocks8(inp, 128);
@@ -108,7 +114,7 @@ verif_harness! {
         let mut ok = true;
         let mut i = 0;
         while i < 8 {
-            let e = ra::xor(&ra::inv_mix_columns(&ra::inv_shift_rows(&ra::sub_bytes_with(&x[i], &fx::uf_isb::call))), &k[i]);
+            let e = ra::xor(&fx::o_imc(&ra::inv_shift_rows(&ra::sub_bytes_with(&x[i], &fx::o_isb))), &k[i]);
             ok &= a[i].0 == e;
             i += 1;
         }
